@@ -73,11 +73,19 @@ type AllowSpec struct {
 	Asserted  string `json:"asserted_by"`
 }
 
+// GlobalRefOK explains, per package-level variable, why a reference to the object it names may
+// leave a function that runs after package initialisation (NoGlobalEscapes).
+type GlobalRefOK struct {
+	Var    string `json:"var"`
+	Reason string `json:"reason"`
+}
+
 type Config struct {
-	Packages    []string    `json:"packages"`
-	ReaderRoots []RootSpec  `json:"reader_roots"`
-	Guards      []GuardSpec `json:"guards"`
-	Allow       []AllowSpec `json:"allow"`
+	Packages     []string      `json:"packages"`
+	ReaderRoots  []RootSpec    `json:"reader_roots"`
+	Guards       []GuardSpec   `json:"guards"`
+	GlobalRefsOK []GlobalRefOK `json:"global_refs_ok"`
+	Allow        []AllowSpec   `json:"allow"`
 }
 
 const fresh = "~"
@@ -1027,6 +1035,21 @@ func main() {
 		}
 	}
 	matched := a.tag(&cfg)
+	refOKUsed := make([]int, len(cfg.GlobalRefsOK))
+	for _, fi := range a.fns {
+		for i := range fi.sites {
+			s := &fi.sites[i]
+			if s.kind != kLeak {
+				continue
+			}
+			for k, ok := range cfg.GlobalRefsOK {
+				if base(s.tgt) == ok.Var {
+					s.allow = k + 1
+					refOKUsed[k]++
+				}
+			}
+		}
+	}
 
 	// dedupe + sort sites
 	for _, fi := range a.fns {
@@ -1279,6 +1302,17 @@ func main() {
 			}
 		}
 	}
+	for f, fi := range a.fns {
+		if initOnly[f] {
+			continue
+		}
+		for _, s := range fi.sites {
+			if s.kind == kLeak && s.allow == 0 {
+				diags = append(diags, fmt.Sprintf("NoGlobalEscapes: in %s a reference to the package-level %s is %s; objects of package-level variables must not become reachable from a module set (explain the variable under global_refs_ok in allow.json if this is harmless)",
+					fi.name, s.tgt, s.held))
+			}
+		}
+	}
 	if goStmts > 0 {
 		diags = append(diags, fmt.Sprintf("ReaderDiscipline: the packages contain %d go statement(s)", goStmts))
 	}
@@ -1313,6 +1347,11 @@ func main() {
 	for i, al := range cfg.Allow {
 		w("  %q%s\n", fmt.Sprintf("%s | %s | %s | guard: %s | sites tagged: %d", al.ID, al.Func, al.Class, al.Guard, matched[i]), comma(i, len(cfg.Allow)))
 	}
+	w("]\n\n/-- explained package-level variable k (tag k+1 on a leak): variable, reason (printing only) -/\n")
+	w("def globalRefOkNames : Array String := #[\n")
+	for i, ok := range cfg.GlobalRefsOK {
+		w("  %q%s\n", fmt.Sprintf("%s | %s | leak sites tagged: %d", ok.Var, ok.Reason, refOKUsed[i]), comma(i, len(cfg.GlobalRefsOK)))
+	}
 	w("]\n\n")
 	acc := func(ss []site, kind int) string {
 		var parts []string
@@ -1327,6 +1366,9 @@ func main() {
 				id = locID[s.tgt]
 			}
 			var hs []string
+			if kind == kLeak {
+				s.held = ""
+			}
 			for _, h := range splitHeld(s.held) {
 				hs = append(hs, fmt.Sprintf("(%d,%s)", mtxID[h[0]], map[string]string{"x": "true", "s": "false"}[h[1]]))
 			}
@@ -1336,8 +1378,8 @@ func main() {
 	}
 	// one definition per function keeps every term small
 	for i, fi := range a.fns {
-		w("/-- %s -/\ndef f%d : Fn := ⟨%s,\n  %s,\n  %s, %v⟩\n", strings.ReplaceAll(fi.name, "-/", "- /"), i,
-			acc(fi.sites, kRead), acc(fi.sites, kWrite), acc(fi.sites, kCall), fi.escapes)
+		w("/-- %s -/\ndef f%d : Fn := ⟨%s,\n  %s,\n  %s,\n  %s, %v⟩\n", strings.ReplaceAll(fi.name, "-/", "- /"), i,
+			acc(fi.sites, kRead), acc(fi.sites, kWrite), acc(fi.sites, kCall), acc(fi.sites, kLeak), fi.escapes)
 	}
 	w("\ndef facts : Facts where\n  fns := [")
 	for i := range a.fns {
@@ -1379,9 +1421,9 @@ func main() {
 	notesPath := strings.TrimSuffix(strings.TrimSuffix(*out, ".new"), ".lean") + ".notes.txt"
 	var nb strings.Builder
 	fmt.Fprintf(&nb, "Notes of harness/cmd/extract-access for %s (informational; the verdict is the kernel's evaluation of\n"+
-		"ReaderDiscipline / GlobalsInitOnly / GuardedLocations in Goyang/Props/C19.lean).\n\n", strings.TrimSuffix(*out, ".new"))
+		"ReaderDiscipline / GlobalsInitOnly / GuardedLocations / NoGlobalEscapes in Goyang/Props/C19.lean).\n\n", strings.TrimSuffix(*out, ".new"))
 	if len(diags) == 0 {
-		nb.WriteString("No offending site: the translator's own evaluation of the three predicates on this table is true.\n")
+		nb.WriteString("No offending site: the translator's own evaluation of the four predicates on this table is true.\n")
 	} else {
 		fmt.Fprintf(&nb, "%d offending site(s); each makes the named predicate false on this table:\n", len(diags))
 		for _, d := range diags {
@@ -1391,6 +1433,11 @@ func main() {
 	for i, al := range cfg.Allow {
 		if matched[i] == 0 {
 			fmt.Fprintf(&nb, "note: allow-list entry %s matches no site of the current source\n", al.ID)
+		}
+	}
+	for i, ok := range cfg.GlobalRefsOK {
+		if refOKUsed[i] == 0 {
+			fmt.Fprintf(&nb, "note: global_refs_ok entry %s matches no leak of the current source\n", ok.Var)
 		}
 	}
 	if err := os.WriteFile(notesPath, []byte(nb.String()), 0o644); err != nil {
@@ -1535,7 +1582,9 @@ func (a *analyzer) dump(cfg *Config, matched []int, reach, initOnly map[int]bool
 		fmt.Printf("%d %s%s\n", i, fi.name, flags)
 		for _, s := range fi.sites {
 			al := ""
-			if s.allow > 0 {
+			if s.allow > 0 && s.kind == kLeak {
+				al = "   explained=" + cfg.GlobalRefsOK[s.allow-1].Var
+			} else if s.allow > 0 {
 				al = "   allow=" + cfg.Allow[s.allow-1].ID
 			}
 			fmt.Printf("    %s %-50s {%s}%s\n", kinds[s.kind], s.tgt, s.held, al)
